@@ -69,6 +69,8 @@ type gen struct {
 	stable    map[*ssa.Alloc]bool
 	allocAddr map[*ssa.Alloc]string
 	callOrd   map[string]int
+	loopNalloc map[*ssa.BasicBlock]string
+	loopLocalStores map[*ssa.BasicBlock]map[*ssa.Alloc]bool
 	callReach map[string]string
 	debugVars map[*ssa.BasicBlock]map[string]T
 	loopOrd   map[*ssa.BasicBlock]int
